@@ -135,6 +135,10 @@ impl Packing for Packer {
     }
     fn pack_bin(&self,fimg: &mut FileImage,dat: &[u8],load_addr: Option<usize>,trailing: Option<&[u8]>) -> STDRESULT {
         Self::verify(fimg)?;
+        if dat.len() > u16::MAX as usize {
+            log::error!("data length {} does not fit the 16 bit length header",dat.len());
+            return Err(Box::new(Error::Range));
+        }
         if let Some(addr) = load_addr {
             let file = BinaryData::pack(dat,u16::try_from(addr)?);
             let padded = match trailing {
@@ -167,6 +171,10 @@ impl Packing for Packer {
     }
     fn pack_tok(&self,fimg: &mut FileImage,tok: &[u8],lang: ItemType,trailing: Option<&[u8]>) -> STDRESULT {
         Self::verify(fimg)?;
+        if tok.len() > u16::MAX as usize {
+            log::error!("program length {} does not fit the 16 bit length header",tok.len());
+            return Err(Box::new(Error::Range));
+        }
         let padded = TokenizedProgram::pack(&tok,trailing).to_bytes();
         let fs_type = match lang {
             ItemType::ApplesoftTokens => FileType::Applesoft,
